@@ -20,6 +20,10 @@ pub fn n_cases(ctx: &Ctx) -> u64 {
 }
 
 pub fn run_case(ctx: &Ctx, idx: u64) -> Vec<CaseOut> {
+    crate::mt::watched(ctx, idx, "reader-position", run_case_inner)
+}
+
+fn run_case_inner(ctx: &Ctx, idx: u64) -> Vec<CaseOut> {
     let mut r = ctx.rng(idx);
     let kind = if idx < STEER { idx } else { r.below(8) };
     let lzma1 = kind <= 3;
